@@ -622,6 +622,10 @@ pub fn resolve(raw: &RawDoc) -> SDoc {
                     if raw.opts.hostile_names && (seed as usize + s as usize) % 2 == 0 {
                         // keyword path segments; the file index keeps module paths of different files apart
                         format!("{}{}", RUST_KEYWORDS[(seed as usize + s as usize * 7 + i) % RUST_KEYWORDS.len()], if s == 0 { i.to_string() } else { String::new() })
+                    } else if s == 0 && segs >= 2 && seed % 4 == 1 {
+                        // a first segment shared by the files that take this branch: sibling
+                        // modules below one parent module
+                        "root".to_string()
                     } else if s > 0 && s + 1 == segs.min(3) && seed % 3 == 0 {
                         // a last segment shared by the files that take this branch: module paths
                         // that differ in their first segment and agree in a later one
